@@ -30,6 +30,19 @@ type Quant struct {
 	Body Term
 	Offs []Term // offsets OFF of index terms (+ OFF (f var)) used with the bound variable: instantiation patterns
 	Idx  []Term // full index terms mentioning the bound variable
+	// typed (non-index) quantifiers: alls(h, p, body)
+	TVars  []string // SMT names
+	TNames []string // source names
+	TSort  string
+}
+
+// instTyped instantiates a typed quantifier with one term per variable.
+func instTyped(q *Quant, ts []Term) Term {
+	b := q.Body
+	for i, v := range q.TVars {
+		b = strings.ReplaceAll(b, v, ts[i])
+	}
+	return b
 }
 
 // Rec collects what the instantiation engine needs from the evaluation of one clause.
@@ -157,6 +170,9 @@ func (e *Env) eval(x Expr) Val {
 		return Val{T: "nil", Sort: "nil"}
 	case EIdent:
 		if v, ok := e.vars[n.Name]; ok {
+			if v.Lazy != nil {
+				return u.goVal(u.load(e.st, v.T, v.Lazy), v.Lazy)
+			}
 			return v
 		}
 		if v, ok := e.pkgMember(e.pkg, "", n.Name); ok {
@@ -783,6 +799,44 @@ func (e *Env) evalCall(n ECall) Val {
 		}
 		return specVal("(exists (("+q+" "+sort+")) "+body.T+")", SBool)
 	}
+	if n.Fun == "alls" || n.Fun == "alli" {
+		// alls(h, p, ..., body): universally quantified string (alli: integer) variables
+		if len(n.Args) < 2 {
+			e.fail("%s(vars..., body)", n.Fun)
+		}
+		sort := SStr
+		if n.Fun == "alli" {
+			sort = SInt
+		}
+		vars := map[string]Val{}
+		q := &Quant{TSort: sort}
+		var binds []string
+		for _, a := range n.Args[:len(n.Args)-1] {
+			id, ok := a.(EIdent)
+			if !ok {
+				e.fail("%s: variables must be identifiers", n.Fun)
+			}
+			u.nfresh++
+			name := fmt.Sprintf("q!%d!%s", u.nfresh, smtIdent(id.Name))
+			vars[id.Name] = specVal(name, sort)
+			q.TVars = append(q.TVars, name)
+			q.TNames = append(q.TNames, id.Name)
+			binds = append(binds, "("+name+" "+sort+")")
+		}
+		e2 := e.with(vars)
+		e2.inQuant = e.inQuant + 1
+		e2.qvars = append(append([]string{}, e.qvars...), q.TVars...)
+		body := e2.eval(n.Args[len(n.Args)-1])
+		if body.Sort != SBool {
+			e.fail("%s body not boolean", n.Fun)
+		}
+		t := "(forall (" + strings.Join(binds, " ") + ") " + body.T + ")"
+		if e.rec != nil && e.inQuant == 0 && e.polarity() == 1 {
+			q.Text, q.Body = t, body.T
+			e.rec.Quants = append(e.rec.Quants, q)
+		}
+		return specVal(t, SBool)
+	}
 	if p, ok := u.P.CS.Preds[n.Fun]; ok {
 		if len(p.Params) != len(n.Args) {
 			e.fail("pred %s expects %d arguments", p.Name, len(p.Params))
@@ -792,7 +846,12 @@ func (e *Env) evalCall(n ECall) Val {
 		}
 		vars := map[string]Val{}
 		for i, a := range n.Args {
-			vars[p.Params[i]] = e.eval(a)
+			v := e.eval(a)
+			if e.inQuant == 0 && len(v.T) > 40 && v.Sort != "nil" && v.Sort != "type" && v.Sort != "pkg" && !strings.HasPrefix(v.Sort, "ghostaddr") {
+				// name big argument terms so that the expansion stays a DAG
+				v.T = u.def("a_"+p.Params[i], v.Sort, v.T)
+			}
+			vars[p.Params[i]] = v
 		}
 		e2 := e.with(vars)
 		e2.depth = e.depth + 1
